@@ -329,6 +329,8 @@ func runC03(e *Engine, r *Report) {
 	ruleSingleNodeQuorum(e, r)
 	ruleRaftPredicates(e, r, "upToDate", "dropRequestVote", "termNotMatched")
 	ruleSelfRemoved(e, r)
+	borrow(e, r, "C04", "TBL-free-order", "MPT-persist-before-send", "MPT-persist-before-ack")
+	borrow(e, r, "C08", "MPT-restore-replaces")
 }
 
 // canGrantTrueEdges: in the boolean phi that forms the predicate's result,
